@@ -223,7 +223,7 @@ def run(ctx):
         prog = CU.rand_program(rng, n, rng.randrange(1, 7), kinds=('gen', 'fmap', 'bmap'))
 
         def tgate(d):
-            g = TCI.CliffordGate(*d['qubits'])
+            g = TCI.CliffordGate(*d.get('order', d['qubits']))
             if d['kind'] == 'gen':
                 g.set_generator(tpauli(d['gen']))
             elif d['kind'] == 'fmap':
